@@ -51,47 +51,51 @@ uint64_t G_k_drawn[4]; unsigned G_rand_calls; int G_rand_fail;
 size_t G_sk2;   /* ghost index into the 64 signature bytes */
 #endif
 
-/* ---- uninterpreted point operations (assumed here; C13 layer 3 is where their bodies are addressed) ---- */
-#ifndef CONTRACT_MULG_RECORDING_ONLY
+/* ---- point operations as recording stubs (P-TAINT): each call records its scalar, its operand VALUES and its
+   (arbitrary) result, so the caller's postcondition can state which value flowed where.  The UF formulation of the
+   same equation (a 256-bit congruence chain) did not finish in 900 s on any back end (measured). ---- */
+#ifdef VERIF_CBMC
+typedef struct { uint64_t X[4], Y[4], Z[4]; } gpt_t;
+#define PT_EQ(g, P) ((g).X[0] == (P)->X[0] && (g).X[1] == (P)->X[1] && (g).X[2] == (P)->X[2] && (g).X[3] == (P)->X[3] \
+	&& (g).Y[0] == (P)->Y[0] && (g).Y[1] == (P)->Y[1] && (g).Y[2] == (P)->Y[2] && (g).Y[3] == (P)->Y[3] \
+	&& (g).Z[0] == (P)->Z[0] && (g).Z[1] == (P)->Z[1] && (g).Z[2] == (P)->Z[2] && (g).Z[3] == (P)->Z[3])
+#define GPT_EQ(g, h) ((g).X[0] == (h).X[0] && (g).X[1] == (h).X[1] && (g).X[2] == (h).X[2] && (g).X[3] == (h).X[3] \
+	&& (g).Y[0] == (h).Y[0] && (g).Y[1] == (h).Y[1] && (g).Y[2] == (h).Y[2] && (g).Y[3] == (h).Y[3] \
+	&& (g).Z[0] == (h).Z[0] && (g).Z[1] == (h).Z[1] && (g).Z[2] == (h).Z[2] && (g).Z[3] == (h).Z[3])
+uint64_t G_mg_k[4]; gpt_t G_mg_out; unsigned G_mg_calls;            /* [k]G : scalar, result */
+uint64_t G_pm_k[4]; gpt_t G_pm_in; gpt_t G_pm_out; unsigned G_pm_calls;   /* [k]P : scalar, operand, result */
+gpt_t G_pa_a, G_pa_b, G_pa_out; unsigned G_pa_calls;                 /* P+Q  : operands, result */
+gpt_t G_gx_in; uint64_t G_gx_x[4]; unsigned G_gx_calls;              /* affine x : operand, result */
+#endif
 void sm2_z256_point_mul_generator(SM2_Z256_POINT *R, const sm2_z256_t k)
 REQUIRES(W_OK(R, sizeof(*R)) && R_OK(k, 32))
-ASSIGNS(OBJ_UPTO((uint8_t *)R, sizeof(*R)))
-ENSURES(V256(R->X) == GX(MK4(OLD(k[3]), OLD(k[2]), OLD(k[1]), OLD(k[0]))) && V256(R->Y) == GY(MK4(OLD(k[3]), OLD(k[2]), OLD(k[1]), OLD(k[0])))
-	&& V256(R->Z) == GZ(MK4(OLD(k[3]), OLD(k[2]), OLD(k[1]), OLD(k[0]))))
+ASSIGNS(OBJ_UPTO((uint8_t *)R, sizeof(*R)), OBJ_WHOLE(G_mg_k), G_mg_out, G_mg_calls)
+ENSURES(G_mg_calls == OLD(G_mg_calls) + 1 && VAL4(G_mg_k) == MK4(OLD(k[3]), OLD(k[2]), OLD(k[1]), OLD(k[0])) && PT_EQ(G_mg_out, R))
 ;
-#endif
-
 void sm2_z256_point_mul(SM2_Z256_POINT *R, const sm2_z256_t k, const SM2_Z256_POINT *P)
-REQUIRES(W_OK(R, sizeof(*R)) && R_OK(k, 32) && R_OK(P, sizeof(*P)) && SEPARATE(R, P))
-ASSIGNS(OBJ_UPTO((uint8_t *)R, sizeof(*R)))
-ENSURES(V256(R->X) == MX(V256(k), P) && V256(R->Y) == MY(V256(k), P) && V256(R->Z) == MZ(V256(k), P))
+REQUIRES(W_OK(R, sizeof(*R)) && R_OK(k, 32) && R_OK(P, sizeof(*P)) && SEPARATE(R, P) && SEPARATE(R, k))
+ASSIGNS(OBJ_UPTO((uint8_t *)R, sizeof(*R)), OBJ_WHOLE(G_pm_k), G_pm_in, G_pm_out, G_pm_calls)
+ENSURES(G_pm_calls == OLD(G_pm_calls) + 1 && VAL4(G_pm_k) == VAL4(k) && PT_EQ(G_pm_in, P) && PT_EQ(G_pm_out, R))
 ;
-
-/* table-driven [k]P: T[0] is P (sm2_z256_point_mul_pre_compute) */
 void sm2_z256_point_mul_ex(SM2_Z256_POINT *R, const uint64_t k[4], const SM2_Z256_POINT *T)
-REQUIRES(W_OK(R, sizeof(*R)) && R_OK(k, 32) && R_OK(T, 16 * sizeof(*T)) && SEPARATE(R, T))
-ASSIGNS(OBJ_UPTO((uint8_t *)R, sizeof(*R)))
-ENSURES(V256(R->X) == MX(V256(k), &T[0]) && V256(R->Y) == MY(V256(k), &T[0]) && V256(R->Z) == MZ(V256(k), &T[0]))
+REQUIRES(W_OK(R, sizeof(*R)) && R_OK(k, 32) && R_OK(T, 16 * sizeof(*T)) && SEPARATE(R, T) && SEPARATE(R, k))
+ASSIGNS(OBJ_UPTO((uint8_t *)R, sizeof(*R)), OBJ_WHOLE(G_pm_k), G_pm_in, G_pm_out, G_pm_calls)
+ENSURES(G_pm_calls == OLD(G_pm_calls) + 1 && VAL4(G_pm_k) == VAL4(k) && PT_EQ(G_pm_in, &T[0]) && PT_EQ(G_pm_out, R))
 ;
-
 void sm2_z256_point_add(SM2_Z256_POINT *r, const SM2_Z256_POINT *a, const SM2_Z256_POINT *b)
 REQUIRES(W_OK(r, sizeof(*r)) && R_OK(a, sizeof(*a)) && R_OK(b, sizeof(*b)) && SEPARATE(r, b))
-ASSIGNS(OBJ_UPTO((uint8_t *)r, sizeof(*r)))
-ENSURES(V256(r->X) == AX6(MK4(OLD(a->X[3]), OLD(a->X[2]), OLD(a->X[1]), OLD(a->X[0])), MK4(OLD(a->Y[3]), OLD(a->Y[2]), OLD(a->Y[1]), OLD(a->Y[0])),
-	MK4(OLD(a->Z[3]), OLD(a->Z[2]), OLD(a->Z[1]), OLD(a->Z[0])), V256(b->X), V256(b->Y), V256(b->Z)))
-ENSURES(V256(r->Y) == AY6(MK4(OLD(a->X[3]), OLD(a->X[2]), OLD(a->X[1]), OLD(a->X[0])), MK4(OLD(a->Y[3]), OLD(a->Y[2]), OLD(a->Y[1]), OLD(a->Y[0])),
-	MK4(OLD(a->Z[3]), OLD(a->Z[2]), OLD(a->Z[1]), OLD(a->Z[0])), V256(b->X), V256(b->Y), V256(b->Z)))
-ENSURES(V256(r->Z) == AZ6(MK4(OLD(a->X[3]), OLD(a->X[2]), OLD(a->X[1]), OLD(a->X[0])), MK4(OLD(a->Y[3]), OLD(a->Y[2]), OLD(a->Y[1]), OLD(a->Y[0])),
-	MK4(OLD(a->Z[3]), OLD(a->Z[2]), OLD(a->Z[1]), OLD(a->Z[0])), V256(b->X), V256(b->Y), V256(b->Z)))
+ASSIGNS(OBJ_UPTO((uint8_t *)r, sizeof(*r)), G_pa_a, G_pa_b, G_pa_out, G_pa_calls)
+ENSURES(G_pa_calls == OLD(G_pa_calls) + 1 && PT_EQ(G_pa_b, b) && PT_EQ(G_pa_out, r))
+ENSURES(G_pa_a.X[0] == OLD(a->X[0]) && G_pa_a.X[1] == OLD(a->X[1]) && G_pa_a.X[2] == OLD(a->X[2]) && G_pa_a.X[3] == OLD(a->X[3])
+	&& G_pa_a.Y[0] == OLD(a->Y[0]) && G_pa_a.Y[1] == OLD(a->Y[1]) && G_pa_a.Y[2] == OLD(a->Y[2]) && G_pa_a.Y[3] == OLD(a->Y[3])
+	&& G_pa_a.Z[0] == OLD(a->Z[0]) && G_pa_a.Z[1] == OLD(a->Z[1]) && G_pa_a.Z[2] == OLD(a->Z[2]) && G_pa_a.Z[3] == OLD(a->Z[3]))
 ;
-
 #ifdef CONTRACT_GET_XY_UF
-/* affine x (y not requested by any caller in sm2_sign.c) */
 int sm2_z256_point_get_xy(const SM2_Z256_POINT *P, uint64_t x[4], uint64_t y[4])
 REQUIRES(R_OK(P, sizeof(*P)) && W_OK(x, 32) && y == NULL)
-ASSIGNS(OBJ_UPTO(x, 32))
+ASSIGNS(OBJ_UPTO(x, 32), G_gx_in, OBJ_WHOLE(G_gx_x), G_gx_calls)
 ENSURES(RET == 1 || RET == 0)
-ENSURES(V256(x) == AFFX(V256(P->X), V256(P->Y), V256(P->Z)) && VAL4(x) < BV_P)
+ENSURES(G_gx_calls == OLD(G_gx_calls) + 1 && PT_EQ(G_gx_in, P) && VAL4(G_gx_x) == VAL4(x) && VAL4(x) < BV_P)
 ;
 #endif
 
@@ -123,11 +127,16 @@ ENSURES(RET != 1 IMPLIES G_rand_fail == 1)
 ;
 
 /* ---- verification core: accepts only if the GB/T 32918.2 checks and equation hold ---- */
+/* RET == 1 only if: r, s in [1, n-1]; t = (r+s) mod n != 0; exactly one [.]G with scalar s, exactly one [.]P with scalar t
+   on the caller's public key, their results added (in that order), the affine x of the sum taken, and r == (e + x) mod n */
 #define SM2_VERIFY_POST(P) \
 ENSURES(RET == 1 || RET == -1) \
 ENSURES(RET == 1 IMPLIES BEVAL32(sig->r) >= 1 && BEVAL32(sig->r) < (bv256)BV_N && BEVAL32(sig->s) >= 1 && BEVAL32(sig->s) < (bv256)BV_N) \
 ENSURES(RET == 1 IMPLIES ADDN(BEVAL32(sig->r), BEVAL32(sig->s)) != 0) \
-ENSURES(RET == 1 IMPLIES (bv257)BEVAL32(sig->r) == ADDN(REDN(BEVAL32(dgst)), REDN(VERIFY_X(BEVAL32(sig->s), (bv256)ADDN(BEVAL32(sig->r), BEVAL32(sig->s)), P))))
+ENSURES(RET == 1 IMPLIES G_mg_calls == OLD(G_mg_calls) + 1 && G_pm_calls == OLD(G_pm_calls) + 1 && G_pa_calls == OLD(G_pa_calls) + 1 && G_gx_calls == OLD(G_gx_calls) + 1) \
+ENSURES(RET == 1 IMPLIES (bv256)VAL4(G_mg_k) == BEVAL32(sig->s) && VAL4(G_pm_k) == ADDN(BEVAL32(sig->r), BEVAL32(sig->s)) && PT_EQ(G_pm_in, P)) \
+ENSURES(RET == 1 IMPLIES GPT_EQ(G_pa_a, G_mg_out) && GPT_EQ(G_pa_b, G_pm_out) && GPT_EQ(G_gx_in, G_pa_out)) \
+ENSURES(RET == 1 IMPLIES (bv257)BEVAL32(sig->r) == ADDN(REDN(BEVAL32(dgst)), REDN(VAL4(G_gx_x))))
 
 int sm2_do_verify(const SM2_KEY *key, const uint8_t dgst[32], const SM2_SIGNATURE *sig)
 REQUIRES(R_OK(key, sizeof(*key)) && R_OK(dgst, 32) && R_OK(sig, sizeof(*sig)))
@@ -137,7 +146,7 @@ ENSURES(RET == 1 || RET == -1)
 ENSURES(G_dv_last == RET && G_dv_calls == OLD(G_dv_calls) + 1 && G_dv_key == (const void *)key && G_dv_dgst == (const void *)dgst
 	&& (G_sk2 >= 64 || G_dv_sigbyte == ((const uint8_t *)sig)[G_sk2]))
 #else
-ASSIGNS()
+ASSIGNS(OBJ_WHOLE(G_mg_k), G_mg_out, G_mg_calls, OBJ_WHOLE(G_pm_k), G_pm_in, G_pm_out, G_pm_calls, G_pa_a, G_pa_b, G_pa_out, G_pa_calls, G_gx_in, OBJ_WHOLE(G_gx_x), G_gx_calls)
 SM2_VERIFY_POST(&key->public_key)
 #endif
 ;
@@ -150,7 +159,7 @@ ENSURES(RET == 1 || RET == -1)
 ENSURES(G_dv_last == RET && G_dv_calls == OLD(G_dv_calls) + 1 && G_dv_key == (const void *)point_table && G_dv_dgst == (const void *)dgst
 	&& (G_sk2 >= 64 || G_dv_sigbyte == ((const uint8_t *)sig)[G_sk2]))
 #else
-ASSIGNS()
+ASSIGNS(OBJ_WHOLE(G_mg_k), G_mg_out, G_mg_calls, OBJ_WHOLE(G_pm_k), G_pm_in, G_pm_out, G_pm_calls, G_pa_a, G_pa_b, G_pa_out, G_pa_calls, G_gx_in, OBJ_WHOLE(G_gx_x), G_gx_calls)
 SM2_VERIFY_POST(&point_table[0])
 #endif
 ;
@@ -228,6 +237,35 @@ ASSIGNS(OBJ_UPTO((uint8_t *)pre_comp, 32 * sizeof(SM2_SIGN_PRE_COMP)))
 ENSURES(RET == 1 || RET == -1)
 #endif
 ;
+
+#ifndef CONTRACT_SIGN_RECORDING
+/* fast path: (r, s) of GB/T 32918.2 for the precomputed nonce k (x1 = x([k]G) mod n) and d' = (1+d)^-1:
+   r = (e + x1) mod n, s = ((k + r) * d' - r) mod n, and — as on the one-shot path — never r == 0, r + k == n or s == 0 */
+int sm2_fast_sign(const sm2_z256_t fast_private, SM2_SIGN_PRE_COMP *pre_comp, const uint8_t dgst[32], SM2_SIGNATURE *sig)
+REQUIRES(R_OK(fast_private, 32) && R_OK(pre_comp, sizeof(*pre_comp)) && R_OK(dgst, 32) && W_OK(sig, sizeof(*sig)))
+REQUIRES(VAL4(pre_comp->k) < BV_N && VAL4(pre_comp->x1_modn) < BV_N && VAL4(fast_private) < BV_N)
+ASSIGNS(OBJ_UPTO((uint8_t *)sig, sizeof(*sig)))
+ENSURES(RET == 1 || RET == -1)
+ENSURES(RET == 1 IMPLIES (bv257)BEVAL32(sig->r) == ADDN(REDN(BEVAL32(dgst)), VAL4(pre_comp->x1_modn)))
+ENSURES(RET == 1 IMPLIES BEVAL32(sig->r) != 0 && BEVAL32(sig->s) != 0 && (bv257)BEVAL32(sig->r) + VAL4(pre_comp->k) != BV_N)
+ENSURES(RET == 1 IMPLIES (bv257)BEVAL32(sig->s) == SUBN(__CPROVER_uninterpreted_mmn(__CPROVER_uninterpreted_tomn((bv256)ADDN(VAL4(pre_comp->k), BEVAL32(sig->r))), V256(fast_private)), BEVAL32(sig->r)))
+;
+
+/* one-shot path: the nonce is the LAST value drawn; r = (e + x([k]G)) mod n; retry on r == 0, r + k == n, s == 0;
+   s = (1+d)^-1 * (k - r*d) over the uninterpreted Z_n Montgomery operations */
+int sm2_do_sign(const SM2_KEY *key, const uint8_t dgst[32], SM2_SIGNATURE *sig)
+REQUIRES(R_OK(key, sizeof(*key)) && R_OK(dgst, 32) && W_OK(sig, sizeof(*sig)) && VAL4(key->private_key) < BV_N)
+ASSIGNS(OBJ_UPTO((uint8_t *)sig, sizeof(*sig)), OBJ_WHOLE(G_k_drawn), G_rand_calls, G_rand_fail, OBJ_WHOLE(G_mg_k), G_mg_out, G_mg_calls, G_gx_in, OBJ_WHOLE(G_gx_x), G_gx_calls)
+ENSURES(RET == 1 || RET == -1)
+ENSURES(RET == 1 IMPLIES G_rand_fail == OLD(G_rand_fail) && VAL4(G_k_drawn) >= 1 && VAL4(G_k_drawn) < BV_N)
+ENSURES(RET == 1 IMPLIES VAL4(G_mg_k) == VAL4(G_k_drawn) && GPT_EQ(G_gx_in, G_mg_out))
+ENSURES(RET == 1 IMPLIES (bv257)BEVAL32(sig->r) == ADDN(REDN(BEVAL32(dgst)), REDN(VAL4(G_gx_x))))
+ENSURES(RET == 1 IMPLIES BEVAL32(sig->r) != 0 && BEVAL32(sig->s) != 0 && (bv257)BEVAL32(sig->r) + VAL4(G_k_drawn) != BV_N)
+ENSURES(RET == 1 IMPLIES BEVAL32(sig->s) == __CPROVER_uninterpreted_mmn(
+	__CPROVER_uninterpreted_minvn(__CPROVER_uninterpreted_tomn((bv256)ADDN(VAL4(key->private_key), 1))),
+	(bv256)SUBN(VAL4(G_k_drawn), __CPROVER_uninterpreted_mmn(__CPROVER_uninterpreted_tomn(BEVAL32(sig->r)), V256(key->private_key)))))
+;
+#endif
 
 #ifdef CONTRACT_SIGN_RECORDING
 int sm2_fast_sign(const sm2_z256_t fast_private, SM2_SIGN_PRE_COMP *pre_comp, const uint8_t dgst[32], SM2_SIGNATURE *sig)
